@@ -44,13 +44,15 @@ _TRUSTED = ["modelled, not verified: mvdan/sh (task bodies are probes: append to
 _ASSUME = ["H_inj / Hx_inj: the digest of a fingerprint is injective (stated in the theorems as hypotheses)",
            "task bodies write their generates files only after every command succeeded; histories do not write the outputs or .task directly",
            "crash points are command boundaries (SIGKILL of the task process from inside a command)"]
-_RULE = ("case = project (1-2 fingerprinted tasks; shapes plain/gen/prompt/status/dir/label/collide x method checksum|timestamp) + history of "
+_RULE = ("case = project (1-2 fingerprinted tasks; shapes plain/gen/gen2 (two generates entries)/prompt/status/dir/label/collide/inst (one definition with label 'deploy-{{.ENV}}', "
+         "two instances ENV=staging|prod, called from the CLI and by a parent task calling both)/silent-task/silent-cmd/silent-file x method checksum|timestamp) + history of "
          "file operations and invocations of the real CLI (run/force/dry/status/list-all --json/list-all/summary; outcomes ok, fail@k, "
          "prompt declined, SIGKILL@k); after every operation the tree incl. .task and the trace file are snapshotted. "
          "R_agree: the Coq model (variant derived from extracted facts) replays the history and must reproduce result and snapshot of every step "
          "(digests up to bijection). R_c0x/R_c12: the property's monitor (same function as in the theorems) on the observed behaviour. "
          "R_c12c: H;R;K vs H;K on two copies. exhaustive: all histories up to length 3 (thorough 4) over the property's op alphabet for the main shape, "
-         "length 2 (3) + probing run for the others; plus -n random longer histories per shard. non-trivial = at least one CLI invocation; "
+         "length 2 (3) + probing run for the others; directed: [run; <unsuccessful attempt: fail/kill/declined x normal/--force>; run], partial removal of generates, "
+         "instances of a templated label, --dry --silent; plus -n random longer histories per shard. A silent --dry is observed as RDryQ (RDry or RSkipped). non-trivial = at least one CLI invocation; "
          "distinct = distinct (shape, history, results)")
 
 
